@@ -116,19 +116,22 @@ func rulesCanonical(c *Ctx, r *Report) {
 		r.undecided("CS", where, "anchor", "", "CanonicalSubsequences with a single iterator literal not found")
 		return
 	}
-	f := outer.AnonFuncs[0]
+	lit := outer.AnonFuncs[0]
 	r.analysed(where)
-	s := newSymb(f)
-	// free variables seq and k are only read
-	fvName := map[string]string{}
-	for _, fv := range f.FreeVars {
-		fvName["load(FV:"+fv.Name()+")"] = fv.Name()
+	// the literal's body, or the function it hands its whole work to
+	f, s, paramIn := c.delegatedBody(lit)
+	if f != lit {
+		r.analysed(fname(f))
 	}
 	// yield call
 	var ycall *ssa.Call
 	ny := 0
+	var yieldV ssa.Value
+	if len(lit.Params) == 1 {
+		yieldV = paramIn(lit.Params[0])
+	}
 	instrs(f, func(in ssa.Instruction) {
-		if cl, ok := in.(*ssa.Call); ok && len(f.Params) == 1 && cl.Call.Value == ssa.Value(f.Params[0]) {
+		if cl, ok := in.(*ssa.Call); ok && yieldV != nil && cl.Call.Value == yieldV {
 			ycall = cl
 			ny++
 		}
@@ -220,9 +223,14 @@ func rulesCanonical(c *Ctx, r *Report) {
 		}
 		return linSub(linOf(s.expr(v)), linOf(i)).String()
 	}
-	kAtom := s.expr(f.FreeVars[freeVarIndex(f, "k")]).String()
-	if ld := loadOfFreeVar(f, "k"); ld != nil {
-		kAtom = s.expr(ld).String()
+	// k: the outer function's second parameter, as the literal (or the function it delegates to) sees it
+	kAtom := "^P1"
+	if len(lit.FreeVars) > 0 {
+		ls := newSymb(lit)
+		kAtom = ls.expr(lit.FreeVars[freeVarIndex(lit, "k")]).String()
+		if ld := loadOfFreeVar(lit, "k"); ld != nil {
+			kAtom = ls.expr(ld).String()
+		}
 	}
 	nRC := "builtin:len(" + s.expr(rc).String() + ")"
 	// seq[i : i+k]
